@@ -282,6 +282,12 @@ val rx_po_listitem : rx
 
 val rx_po_ws : rx
 
+val rx_ftl_lead : rx
+
+val rx_ftl_trail : rx
+
+val parser_regexes : rx list
+
 val all_regexes : rx list
 
 val the_rx : sx -> rx
